@@ -1,26 +1,76 @@
 """Fail-closed Python-AST -> Gallina translator for small pure functions.
 
-Subset (anything else raises Untranslatable and the tie is reported broken):
-  statements : x = e | x: T = e | for v in e: ... | if/elif/else | x.append(e)
-               | x.pop() (only under `with contextlib.suppress(IndexError)` or right
-               after a truthiness test of x) | return e (last statement)
-               | raise E(...) / yield e  (function is then translated in the
-               result monad:  state = Ok vars | Err code ; yields accumulate)
-  expressions: names, str/int/bool/None constants, ==, !=, in (substring on str),
-               and/or/not, truthiness of typed names, f-strings of str values,
-               and the primitive patterns listed in PRIMS (matched structurally).
-Loops become [fold_left] over the tuple of variables assigned in the body.
-Types of locals are supplied per target (TYPES) — unknown type => fail closed.
+Anything outside the subset below raises Untranslatable; the generator then fails and the
+tie is reported broken.  The output is a *normal form*: every function becomes a decision
+tree (if/else) whose leaves are the outcomes, every assignment a `let`, every loop one loop
+combinator applied to an explicit step function over an explicit state tuple, so that
+differently written but equivalent sources give terms whose step functions are equal by
+case analysis + computation (what Proofs/Ties.v relies on).
+
+Subset
+  statements : x = e | x: T = e | a, b = e1, e2 | x += e | for <target> in <iterable>: ...
+               (target: name or nested tuple of names; `continue` and `break` allowed)
+               | if/elif/else | x.append(e) | x.extend(e) | x.pop() (only where x is known to be
+               non-empty, or under `with contextlib.suppress(IndexError)` / `try..except
+               IndexError: pass` as the only statement) | return e | raise E(...) | yield e
+               | pass | docstrings | a nested `def h(..): return e` / `h = lambda ..: e` /
+               `def h(..): raise E(..)` helper (inlined at its call sites)
+  expressions: local names, module-level string constants, str/int/bool constants, ==, != (str,
+               int), <,<=,>,>= (int), in / not in (substring on str), and/or/not (truthiness of
+               typed operands), e1 if c else e2, +, - (int), + (str, list), list * int,
+               len(), max(,), min(,), list()/tuple(), x[a:], x[:b], x[a:b], x[-1] (x known
+               non-empty), [..] literals with *splices, f-strings and "..".format(..) of str
+               values, calls of nested helpers, and the library patterns in PRIMS.
+  iterables  : a list value, reversed(..), zip(a, b[, strict=False]), enumerate(x[, k]).
+Loops (state = the variables that exist before the loop and are assigned in its body, ordered
+canonically by Gallina type, then by first definition):
+  pure function, no break : fold_left step xs init           step : S -> X -> S
+  pure function, break    : py_forb  step xs init            step : S -> X -> S * bool(stop)
+  function that may raise
+  or yields               : py_for   step xs init            step : S -> X -> ctl S ; result S
+Functions that raise or yield are translated in the result monad (Ok v | Err code); yields
+accumulate in the list `_out`.
+Types of parameters are supplied per target; locals are inferred (flow-sensitively).
 """
 from __future__ import annotations
 
 import ast
 import hashlib
+import string
 import textwrap
 
 
 class Untranslatable(Exception):
     pass
+
+
+# ----------------------------------------------------------------------------- types
+# atoms "str" "bool" "int" "ppath" | ("list", T) | ("tuple", T1, .., Tn) | ("var", n)
+LSTR = ("list", "str")
+
+
+def parse_type(src: str):
+    try:
+        node = ast.parse(src, mode="eval").body
+    except SyntaxError as e:
+        raise Untranslatable(f"type {src!r}") from e
+    return _type_of_ann(node)
+
+
+def _type_of_ann(n: ast.AST):
+    if isinstance(n, ast.Name) and n.id in ("str", "bool", "int", "ppath"):
+        return n.id
+    if isinstance(n, ast.Attribute) and ast.unparse(n) == "pathlib.PurePosixPath":
+        return "ppath"
+    if isinstance(n, ast.Subscript) and isinstance(n.value, ast.Name) and n.value.id in ("list", "tuple"):
+        sl = n.slice
+        if n.value.id == "list":
+            return ("list", _type_of_ann(sl))
+        if isinstance(sl, ast.Tuple) and len(sl.elts) == 2 and isinstance(sl.elts[1], ast.Constant) and sl.elts[1].value is Ellipsis:
+            return ("list", _type_of_ann(sl.elts[0]))      # tuple[T, ...] used as an immutable sequence
+        if isinstance(sl, ast.Tuple) and len(sl.elts) >= 2:
+            return ("tuple", *[_type_of_ann(x) for x in sl.elts])
+    raise Untranslatable("type annotation " + ast.unparse(n)[:60])
 
 
 def _parse_expr(src: str) -> ast.AST:
@@ -53,266 +103,975 @@ def _match(pat: ast.AST, node: ast.AST, env: dict) -> bool:
     return True
 
 
-# (python pattern with _h_<name> holes, gallina template, result type)
+# (python pattern with _h_<name> holes, gallina template, result type, required hole types)
 PRIMS = [
-    ("pathlib.PurePosixPath('/', _h_a, _h_b)", "(py_join_root {a} {b})", "ppath"),
-    ("_h_x.parts[1:]", "(py_parts1 {x})", "list[str]"),
-    ("_h_x.parts", "(py_parts {x})", "list[str]"),
-    ("pathlib.PurePosixPath(*reversed(_h_x))", "(py_of_parts (rev {x}))", "ppath"),
-    ("pathlib.PurePosixPath(*_h_x)", "(py_of_parts {x})", "ppath"),
-    ("list(reversed(_h_x.parts))", "(rev (py_parts {x}))", "list[str]"),
-    ("_h_x[-1]", "(py_last {x})", "str"),
-    ("_h_x.split()", "(py_split_ws {x})", "list[str]"),
-    ("CROSS_FRAGMENT_LINK.fullmatch(_h_x)", "(py_link_fullmatch {x})", "bool"),
+    ("pathlib.PurePosixPath('/', _h_a, _h_b)", "(py_join_root {a} {b})", "ppath", {"a": "str", "b": "str"}),
+    ("_h_x.parts[1:]", "(py_parts1 {x})", LSTR, {"x": "ppath"}),
+    ("_h_x.parts", "(py_parts {x})", LSTR, {"x": "ppath"}),
+    ("_h_x.split()", "(py_split_ws {x})", LSTR, {"x": "str"}),
+    ("CROSS_FRAGMENT_LINK.fullmatch(_h_x)", "(py_link_fullmatch {x})", "bool", {"x": "str"}),
 ]
-PRIMS = [(_parse_expr(p), g, ty) for p, g, ty in PRIMS]
+PRIMS = [(_parse_expr(p), g, ty, holes) for p, g, ty, holes in PRIMS]
 
 ERRCODES = {"ValueError": "E_ValueError", "KeyError": "E_KeyError", "IndexError": "E_IndexError",
             "TypeError": "E_TypeError", "RuntimeError": "E_RuntimeError"}
+# global names the translation gives a fixed meaning to: must be neither locals of the translated
+# function nor rebound at module level
+BUILTINS_USED = {"len", "max", "min", "list", "tuple", "zip", "enumerate", "reversed", "str", *ERRCODES}
+MODULES_USED = {"pathlib", "contextlib"}
+MAX_TEXT = 200_000
+
+
+def strlit(v: str) -> str:
+    return "[" + ";".join(str(ord(c)) for c in v) + "]%N" if v else "(@nil N)"
+
+
+def walk_scope(node: ast.AST):
+    """ast.walk that does not enter nested function/lambda/class bodies"""
+    yield node
+    for ch in ast.iter_child_nodes(node):
+        if isinstance(ch, (ast.FunctionDef, ast.AsyncFunctionDef, ast.Lambda, ast.ClassDef)):
+            if not isinstance(ch, ast.Lambda):
+                yield ch      # the def statement itself (it binds a name), not its body
+            continue
+        yield from walk_scope(ch)
+
+
+def target_names(t: ast.AST) -> list[str]:
+    if isinstance(t, ast.Name):
+        return [t.id]
+    if isinstance(t, (ast.Tuple, ast.List)):
+        out: list[str] = []
+        for e in t.elts:
+            out.extend(target_names(e))
+        return out
+    raise Untranslatable("assignment/loop target " + ast.dump(t)[:60])
+
+
+class Helper:
+    def __init__(self, name: str, params: list[str], kind: str, body: ast.AST, module_level: bool):
+        self.name, self.params, self.kind, self.body, self.module_level = name, params, kind, body, module_level
+
+
+def helper_of_def(fn: ast.FunctionDef, module_level: bool) -> Helper | None:
+    a = fn.args
+    if fn.decorator_list or a.vararg or a.kwarg or a.kwonlyargs or a.defaults or a.posonlyargs:
+        return None
+    body = [s for s in fn.body if not (isinstance(s, ast.Expr) and isinstance(s.value, ast.Constant) and isinstance(s.value.value, str))]
+    if len(body) != 1:
+        return None
+    s = body[0]
+    params = [x.arg for x in a.args]
+    if isinstance(s, ast.Return) and s.value is not None:
+        return Helper(fn.name, params, "expr", s.value, module_level)
+    if isinstance(s, ast.Raise) and s.exc is not None and (s.cause is None or isinstance(s.cause, (ast.Name, ast.Constant))):
+        return Helper(fn.name, params, "raise", s.exc, module_level)
+    return None
+
+
+class Module:
+    """what the translated function may use from its module"""
+
+    def __init__(self, tree: ast.Module):
+        bound: dict[str, int] = {}
+        self.consts: dict[str, str] = {}
+        self.funcs: dict[str, Helper] = {}
+        self.imports: set[str] = set()
+
+        def bind(n: str):
+            bound[n] = bound.get(n, 0) + 1
+        stack = list(tree.body)
+        while stack:
+            s = stack.pop(0)
+            if isinstance(s, (ast.FunctionDef, ast.AsyncFunctionDef, ast.ClassDef)):
+                bind(s.name)
+                if isinstance(s, ast.FunctionDef):
+                    h = helper_of_def(s, True)
+                    if h is not None:
+                        self.funcs[s.name] = h
+                continue
+            if isinstance(s, (ast.Import, ast.ImportFrom)):
+                for al in s.names:
+                    bind((al.asname or al.name).split(".")[0])
+                    if isinstance(s, ast.Import) and al.asname is None:
+                        self.imports.add(al.name)
+                continue
+            for n in walk_scope(s):
+                if isinstance(n, (ast.Assign, ast.AnnAssign, ast.AugAssign)):
+                    tgs = n.targets if isinstance(n, ast.Assign) else [n.target]
+                    for tg in tgs:
+                        for x in ast.walk(tg):
+                            if isinstance(x, ast.Name):
+                                bind(x.id)
+                    if isinstance(n, (ast.Assign, ast.AnnAssign)) and n in tree.body and len(tgs) == 1 and isinstance(tgs[0], ast.Name) \
+                            and isinstance(n.value, ast.Constant) and isinstance(n.value.value, str):
+                        self.consts[tgs[0].id] = n.value.value
+                elif isinstance(n, (ast.For, ast.With, ast.NamedExpr, ast.Global, ast.Delete)):
+                    for x in ast.walk(n):
+                        if isinstance(x, ast.Name) and isinstance(x.ctx, (ast.Store, ast.Del)):
+                            bind(x.id)
+        # `global X` inside any function may rebind a module name
+        self.globals_written = {n for f in ast.walk(tree) if isinstance(f, ast.Global) for n in f.names}
+        self.bound = bound
+        self.consts = {k: v for k, v in self.consts.items() if bound.get(k) == 1 and k not in self.globals_written}
+        self.funcs = {k: v for k, v in self.funcs.items() if bound.get(k) == 1 and k not in self.globals_written}
+
+
+class LoopCtx:
+    def __init__(self, state: list[str], entry: dict, mode: str):
+        self.state, self.entry, self.mode = state, entry, mode
 
 
 class Tr:
-    def __init__(self, fn: ast.FunctionDef, types: dict[str, str]):
+    def __init__(self, fn: ast.FunctionDef, types: dict[str, str], module: Module):
         self.fn = fn
-        self.types = dict(types)
-        self.monadic = any(isinstance(n, (ast.Raise, ast.Yield)) for n in ast.walk(fn))
-        self.yields = any(isinstance(n, ast.Yield) for n in ast.walk(fn))
+        self.mod = module
+        self.param_types = {k: parse_type(v) for k, v in types.items()}
+        self.yields = any(isinstance(n, (ast.Yield, ast.YieldFrom)) for s in fn.body for n in walk_scope(s))
+        self.monadic = self.yields or any(isinstance(n, ast.Raise) for n in ast.walk(fn))
+        self.subst: dict[int, object] = {}
+        self.saw_unresolved = False
+        self.reset()
+
+    def reset(self):
+        self.vars: dict[str, tuple[str, object]] = {}     # python name -> (gallina name, type)
         self.nonempty: set[str] = set()
+        self.order: dict[str, int] = {}
+        self.helpers: dict[str, Helper] = {}
+        self.ctx: list[LoopCtx | None] = [None]
+        self.counter = 0
+        self.depth = 0
+        self.nvars = 0      # type variables are numbered by creation order, which is the same in every pass
+        self.saw_unresolved = False
 
-    # ---------------- expressions
-    def ty(self, e: ast.AST) -> str:
-        if isinstance(e, ast.Constant):
-            return {str: "str", bool: "bool", int: "int", type(None): "none"}[type(e.value)]
-        if isinstance(e, ast.Name):
-            if e.id not in self.types:
-                raise Untranslatable(f"no type for {e.id}")
-            return self.types[e.id]
-        if isinstance(e, ast.JoinedStr):
-            return "str"
-        if isinstance(e, (ast.Compare, ast.BoolOp)) or (isinstance(e, ast.UnaryOp) and isinstance(e.op, ast.Not)):
-            return "bool"
-        for pat, _, ty in PRIMS:
-            if _match(pat, e, {}):
-                return ty
-        raise Untranslatable("type of " + ast.dump(e)[:80])
+    # ---------------- environment
+    def save(self):
+        return dict(self.vars), set(self.nonempty), dict(self.helpers)
 
-    def truth(self, e: ast.AST) -> str:
-        ty = self.ty(e)
-        if ty == "bool":
-            return self.expr(e)
-        if ty == "str":
-            return f"(negb (str_eqb {self.expr(e)} []))"
-        if ty.startswith("list"):
-            return f"(py_nonempty {self.expr(e)})"
-        raise Untranslatable("truthiness of " + ty)
+    def restore(self, snap):
+        self.vars, self.nonempty, self.helpers = dict(snap[0]), set(snap[1]), dict(snap[2])
 
-    def expr(self, e: ast.AST) -> str:
-        for pat, tmpl, _ in PRIMS:
-            env: dict = {}
-            if _match(pat, e, env):
-                return tmpl.format(**{k: self.expr(v) for k, v in env.items()})
-        if isinstance(e, ast.Name):
-            if e.id not in self.types:
-                raise Untranslatable(f"unknown name {e.id}")
-            return "v_" + e.id
-        if isinstance(e, ast.Constant):
-            v = e.value
-            if isinstance(v, bool):
-                return "true" if v else "false"
-            if isinstance(v, str):
-                return "[" + ";".join(str(ord(c)) for c in v) + "]%N" if v else "(@nil N)"
-            if isinstance(v, int):
-                return f"({v})%Z"
-            raise Untranslatable("constant " + repr(v))
-        if isinstance(e, ast.Compare) and len(e.ops) == 1:
-            a, b, op = e.left, e.comparators[0], e.ops[0]
-            ta, tb = self.ty(a), self.ty(b)
-            if isinstance(op, (ast.Eq, ast.NotEq)) and ta == tb == "str":
-                r = f"(str_eqb {self.expr(a)} {self.expr(b)})"
-                return r if isinstance(op, ast.Eq) else f"(negb {r})"
-            if isinstance(op, (ast.In, ast.NotIn)) and ta == tb == "str":
-                r = f"(py_str_contains {self.expr(b)} {self.expr(a)})"
-                return r if isinstance(op, ast.In) else f"(negb {r})"
-            raise Untranslatable("compare " + ast.dump(e)[:80])
-        if isinstance(e, ast.BoolOp):
-            op = "&&" if isinstance(e.op, ast.And) else "||"
-            return "(" + f" {op} ".join(self.truth(v) for v in e.values) + ")"
-        if isinstance(e, ast.UnaryOp) and isinstance(e.op, ast.Not):
-            return f"(negb {self.truth(e.operand)})"
-        if isinstance(e, ast.JoinedStr):
-            parts = []
-            for v in e.values:
-                if isinstance(v, ast.Constant) and isinstance(v.value, str):
-                    parts.append(self.expr(v))
-                elif isinstance(v, ast.FormattedValue) and v.conversion == -1 and v.format_spec is None and self.ty(v.value) == "str":
-                    parts.append(self.expr(v.value))
-                else:
-                    raise Untranslatable("f-string part")
-            return "(" + " ++ ".join(parts) + ")"
-        raise Untranslatable("expression " + ast.dump(e)[:100])
+    def fresh(self):
+        self.nvars += 1
+        return ("var", self.nvars)
 
-    # ---------------- statements
+    def resolve(self, ty):
+        while isinstance(ty, tuple) and ty[0] == "var" and ty[1] in self.subst:
+            ty = self.subst[ty[1]]
+        if isinstance(ty, tuple) and ty[0] in ("list", "tuple"):
+            return (ty[0], *[self.resolve(x) for x in ty[1:]])
+        return ty
+
+    def unify(self, a, b, what: str):
+        a, b = self.resolve(a), self.resolve(b)
+        if a == b:
+            return a
+        if isinstance(a, tuple) and a[0] == "var":
+            self.subst[a[1]] = b
+            return b
+        if isinstance(b, tuple) and b[0] == "var":
+            self.subst[b[1]] = a
+            return a
+        if isinstance(a, tuple) and isinstance(b, tuple) and a[0] == b[0] and len(a) == len(b):
+            return (a[0], *[self.unify(x, y, what) for x, y in zip(a[1:], b[1:])])
+        raise Untranslatable(f"type mismatch in {what}: {a} vs {b}")
+
+    def gty(self, ty, top=True) -> str:
+        ty = self.resolve(ty)
+        if isinstance(ty, str):
+            return {"str": "str", "bool": "bool", "int": "Z", "ppath": "ppath"}[ty]
+        if ty[0] == "var":
+            self.saw_unresolved = True      # translate() runs another pass with what was learnt in this one
+            return "_"
+        if ty[0] == "list":
+            r = "list " + self.gty(ty[1], False)
+        else:
+            r = " * ".join(self.gty(x, False) for x in ty[1:])
+        return r if top else f"({r})"
+
+    def is_list(self, ty) -> bool:
+        ty = self.resolve(ty)
+        return isinstance(ty, tuple) and ty[0] == "list"
+
+    def define(self, name: str, gname: str, ty):
+        self.vars[name] = (gname, ty)
+        self.order.setdefault(name, len(self.order))
+
+    # ---------------- scope analysis
     def assigned(self, body: list[ast.stmt]) -> list[str]:
+        """names (re)bound or mutated by these statements, in source order"""
         out: list[str] = []
 
         def add(n):
             if n not in out:
                 out.append(n)
         for s in body:
-            for n in ast.walk(s):
-                if isinstance(n, (ast.Assign, ast.AnnAssign)):
-                    tg = n.targets[0] if isinstance(n, ast.Assign) else n.target
-                    if not isinstance(tg, ast.Name):
-                        raise Untranslatable("assignment target")
-                    add(tg.id)
-                elif isinstance(n, ast.Expr) and isinstance(n.value, ast.Call) and isinstance(n.value.func, ast.Attribute) \
-                        and isinstance(n.value.func.value, ast.Name) and n.value.func.attr in ("append", "pop"):
-                    add(n.value.func.value.id)
-                elif isinstance(n, ast.Yield):
-                    add("_out")
+            for n in walk_scope(s):
+                if isinstance(n, ast.Assign):
+                    for tg in n.targets:
+                        for x in target_names(tg):
+                            add(x)
+                elif isinstance(n, (ast.AnnAssign, ast.AugAssign)):
+                    for x in target_names(n.target):
+                        add(x)
                 elif isinstance(n, ast.For):
-                    pass
+                    for x in target_names(n.target):
+                        add(x)
+                elif isinstance(n, (ast.FunctionDef, ast.AsyncFunctionDef, ast.ClassDef)):
+                    add(n.name)
+                elif isinstance(n, ast.Call) and isinstance(n.func, ast.Attribute) and isinstance(n.func.value, ast.Name) \
+                        and n.func.attr in ("append", "pop", "extend"):
+                    add(n.func.value.id)
+                elif isinstance(n, (ast.Yield, ast.YieldFrom)):
+                    add("_out")
+                elif isinstance(n, (ast.NamedExpr, ast.Global, ast.Nonlocal, ast.Delete, ast.With, ast.Import, ast.ImportFrom)) \
+                        and not (isinstance(n, ast.With) and all(i.optional_vars is None for i in n.items)):
+                    raise Untranslatable("binding form " + type(n).__name__)
         return out
 
+    def mutated(self, body: list[ast.stmt]) -> set[str]:
+        out: set[str] = set()
+        for s in body:
+            for n in walk_scope(s):
+                if isinstance(n, ast.Call) and isinstance(n.func, ast.Attribute) and isinstance(n.func.value, ast.Name):
+                    if n.func.attr not in ("split", "format", "fullmatch"):
+                        out.add(n.func.value.id)      # any other method call on a name may mutate it
+                elif isinstance(n, ast.AugAssign) and isinstance(n.target, ast.Name):
+                    out.add(n.target.id)
+        return out
+
+    # ---------------- expressions
+    def name_is_global(self, n: str) -> bool:
+        return n not in self.vars and n not in self.locals
+
+    def prim(self, e: ast.AST):
+        for pat, tmpl, ty, holes in PRIMS:
+            env: dict = {}
+            if _match(pat, e, env):
+                root = next((n.id for n in ast.walk(pat) if isinstance(n, ast.Name) and not n.id.startswith("_h_")), None)
+                if root is not None and not self.name_is_global(root):
+                    raise Untranslatable(f"{root} is a local name here")
+                if root is not None and root not in MODULES_USED and \
+                        (self.mod.bound.get(root, 0) != 1 or root in self.mod.globals_written):
+                    raise Untranslatable(f"{root} is not bound exactly once in the module")
+                texts = {}
+                for k, v in env.items():
+                    t, vty = self.ex(v)
+                    self.unify(vty, holes[k], "argument of " + ast.unparse(e)[:40])
+                    texts[k] = t
+                return tmpl.format(**texts), ty
+        return None
+
+    def truth(self, e: ast.AST) -> str:
+        if isinstance(e, ast.BoolOp):
+            saved = set(self.nonempty)
+            parts = []
+            for v in e.values:
+                parts.append(self.truth(v))
+                self.assume(v, isinstance(e.op, ast.And))
+            self.nonempty = saved
+            return "(" + (" && " if isinstance(e.op, ast.And) else " || ").join(parts) + ")"
+        if isinstance(e, ast.UnaryOp) and isinstance(e.op, ast.Not):
+            return f"(negb {self.truth(e.operand)})"
+        t, ty = self.ex(e)
+        ty = self.resolve(ty)
+        if ty == "bool":
+            return t
+        if ty == "str":
+            return f"(negb (str_eqb {t} []))"
+        if ty == "int":
+            return f"(negb (Z.eqb {t} 0%Z))"
+        if self.is_list(ty):
+            return f"(py_nonempty {t})"
+        raise Untranslatable(f"truthiness of {ty}")
+
+    def assume(self, test: ast.AST, val: bool) -> None:
+        """record what is known once `test` evaluated to `val`"""
+        if isinstance(test, ast.Name) and test.id in self.vars and self.is_list(self.vars[test.id][1]):
+            if val:
+                self.nonempty.add(test.id)
+        elif isinstance(test, ast.UnaryOp) and isinstance(test.op, ast.Not):
+            self.assume(test.operand, not val)
+        elif isinstance(test, ast.BoolOp) and isinstance(test.op, ast.And if val else ast.Or):
+            for v in test.values:
+                self.assume(v, val)
+
+    def it(self, e: ast.AST):
+        """an expression in a position that consumes an iterable once: (gallina list, list type)"""
+        if isinstance(e, ast.Call) and isinstance(e.func, ast.Name) and self.name_is_global(e.func.id) \
+                and e.func.id not in self.mod.bound:
+            f, args, kws = e.func.id, e.args, e.keywords
+            if f == "reversed" and len(args) == 1 and not kws:
+                t, ty = self.it(args[0])
+                return f"(rev {t})", ty
+            if f == "zip" and len(args) == 2 and all(
+                    k.arg == "strict" and isinstance(k.value, ast.Constant) and k.value.value is False for k in kws):
+                (ta, tya), (tb, tyb) = self.it(args[0]), self.it(args[1])
+                return f"(combine {ta} {tb})", ("list", ("tuple", self.resolve(tya)[1], self.resolve(tyb)[1]))
+            if f == "enumerate" and 1 <= len(args) + len(kws) <= 2 and all(k.arg == "start" for k in kws) and args:
+                t, ty = self.it(args[0])
+                st = args[1] if len(args) == 2 else (kws[0].value if kws else None)
+                if st is None:
+                    s_t = "0%Z"
+                else:
+                    s_t, s_ty = self.ex(st)
+                    self.unify(s_ty, "int", "enumerate start")
+                return f"(py_enumerate {s_t} {t})", ("list", ("tuple", "int", self.resolve(ty)[1]))
+            if f in ("list", "tuple") and len(args) == 1 and not kws:
+                return self.it(args[0])
+        t, ty = self.ex(e)
+        if not self.is_list(ty):
+            raise Untranslatable(f"iteration over {self.resolve(ty)}")
+        return t, self.resolve(ty)
+
+    def fmt(self, tmpl: str, args: list[tuple[str, object]]) -> str:
+        parts: list[str] = []
+        auto, manual = 0, False
+        try:
+            fields = list(string.Formatter().parse(tmpl))
+        except ValueError as e:
+            raise Untranslatable("format template") from e
+        for lit, field, spec, conv in fields:
+            if lit:
+                parts.append(strlit(lit))
+            if field is None:
+                continue
+            if spec or conv:
+                raise Untranslatable("format spec/conversion")
+            if field == "":
+                if manual:
+                    raise Untranslatable("mixed format numbering")
+                idx, auto = auto, auto + 1
+            elif field.isdigit():
+                if auto:
+                    raise Untranslatable("mixed format numbering")
+                idx, manual = int(field), True
+            else:
+                raise Untranslatable("format field " + field)
+            if idx >= len(args):
+                raise Untranslatable("format index out of range")
+            t, ty = args[idx]
+            self.unify(ty, "str", "format argument")
+            parts.append(t)
+        return "(" + " ++ ".join(parts) + ")" if parts else "(@nil N)"
+
+    def static_str(self, e: ast.AST) -> str | None:
+        if isinstance(e, ast.Constant) and isinstance(e.value, str):
+            return e.value
+        if isinstance(e, ast.Name) and self.name_is_global(e.id) and e.id in self.mod.consts:
+            return self.mod.consts[e.id]
+        return None
+
+    def ex(self, e: ast.AST) -> tuple[str, object]:
+        r = self.prim(e)
+        if r is not None:
+            return r
+        if isinstance(e, ast.Name):
+            if e.id in self.vars:
+                return self.vars[e.id]
+            if self.name_is_global(e.id) and e.id in self.mod.consts:
+                return strlit(self.mod.consts[e.id]), "str"
+            raise Untranslatable(f"unknown or possibly unbound name {e.id}")
+        if isinstance(e, ast.Constant):
+            v = e.value
+            if isinstance(v, bool):
+                return ("true" if v else "false"), "bool"
+            if isinstance(v, str):
+                return strlit(v), "str"
+            if isinstance(v, int):
+                return f"({v})%Z", "int"
+            raise Untranslatable("constant " + repr(v))
+        if isinstance(e, ast.Compare):
+            if len(e.ops) != 1:
+                raise Untranslatable("chained comparison")
+            op = e.ops[0]
+            (ta, tya), (tb, tyb) = self.ex(e.left), self.ex(e.comparators[0])
+            tya, tyb = self.resolve(tya), self.resolve(tyb)
+            if isinstance(op, (ast.Eq, ast.NotEq)) and tya == tyb and tya in ("str", "int"):
+                r = f"({'str_eqb' if tya == 'str' else 'Z.eqb'} {ta} {tb})"
+                return (r if isinstance(op, ast.Eq) else f"(negb {r})"), "bool"
+            if isinstance(op, (ast.In, ast.NotIn)) and tya == tyb == "str":
+                r = f"(py_str_contains {tb} {ta})"
+                return (r if isinstance(op, ast.In) else f"(negb {r})"), "bool"
+            if tya == tyb == "int" and isinstance(op, (ast.Lt, ast.LtE, ast.Gt, ast.GtE)):
+                f = {ast.Lt: "Z.ltb", ast.LtE: "Z.leb", ast.Gt: "Z.gtb", ast.GtE: "Z.geb"}[type(op)]
+                return f"({f} {ta} {tb})", "bool"
+            raise Untranslatable("comparison " + ast.unparse(e)[:80])
+        if isinstance(e, ast.BoolOp):
+            # as a value: only when every operand is a bool (otherwise Python returns an operand)
+            for v in e.values:
+                if isinstance(v, ast.BoolOp) or (isinstance(v, ast.UnaryOp) and isinstance(v.op, ast.Not)):
+                    continue
+                if self.resolve(self.ex(v)[1]) != "bool":
+                    raise Untranslatable("and/or of non-bool operands used as a value")
+            return self.truth(e), "bool"
+        if isinstance(e, ast.UnaryOp):
+            if isinstance(e.op, ast.Not):
+                return self.truth(e), "bool"
+            if isinstance(e.op, ast.USub):
+                if isinstance(e.operand, ast.Constant) and type(e.operand.value) is int:
+                    return f"({-e.operand.value})%Z", "int"
+                t, ty = self.ex(e.operand)
+                self.unify(ty, "int", "unary minus")
+                return f"(Z.opp {t})", "int"
+            raise Untranslatable("unary operator")
+        if isinstance(e, ast.IfExp):
+            c = self.truth(e.test)
+            saved = set(self.nonempty)
+            self.assume(e.test, True)
+            ta, tya = self.ex(e.body)
+            self.nonempty = set(saved)
+            self.assume(e.test, False)
+            tb, tyb = self.ex(e.orelse)
+            self.nonempty = saved
+            return f"(if {c} then {ta} else {tb})", self.unify(tya, tyb, "conditional expression")
+        if isinstance(e, ast.JoinedStr):
+            parts = []
+            for v in e.values:
+                if isinstance(v, ast.Constant) and isinstance(v.value, str):
+                    parts.append(strlit(v.value))
+                elif isinstance(v, ast.FormattedValue) and v.conversion in (-1, 115) and v.format_spec is None:
+                    t, ty = self.ex(v.value)
+                    self.unify(ty, "str", "f-string value")
+                    parts.append(t)
+                else:
+                    raise Untranslatable("f-string part")
+            return ("(" + " ++ ".join(parts) + ")" if parts else "(@nil N)"), "str"
+        if isinstance(e, ast.BinOp):
+            (ta, tya), (tb, tyb) = self.ex(e.left), self.ex(e.right)
+            tya, tyb = self.resolve(tya), self.resolve(tyb)
+            if isinstance(e.op, (ast.Add, ast.Sub, ast.Mult)) and tya == tyb == "int":
+                f = {ast.Add: "Z.add", ast.Sub: "Z.sub", ast.Mult: "Z.mul"}[type(e.op)]
+                return f"({f} {ta} {tb})", "int"
+            if isinstance(e.op, ast.Add) and (tya == tyb == "str" or (self.is_list(tya) and self.is_list(tyb))):
+                return f"({ta} ++ {tb})", self.unify(tya, tyb, "+")
+            if isinstance(e.op, ast.Mult) and self.is_list(tya) and tyb == "int":
+                return f"(py_list_mul {ta} {tb})", tya
+            if isinstance(e.op, ast.Mult) and tya == "int" and self.is_list(tyb):
+                return f"(py_list_mul {tb} {ta})", tyb
+            raise Untranslatable("operator " + ast.unparse(e)[:80])
+        if isinstance(e, ast.List):
+            segs: list[str] = []
+            cur: list[str] = []
+            ety: object = self.fresh()
+            for x in e.elts:
+                if isinstance(x, ast.Starred):
+                    if cur:
+                        segs.append("[" + "; ".join(cur) + "]")
+                        cur = []
+                    t, ty = self.it(x.value)
+                    ety = self.unify(ety, self.resolve(ty)[1], "list literal")
+                    segs.append(t)
+                else:
+                    t, ty = self.ex(x)
+                    if self.is_list(ty):
+                        raise Untranslatable("list of lists")
+                    ety = self.unify(ety, ty, "list literal")
+                    cur.append(t)
+            if cur or not segs:
+                segs.append("[" + "; ".join(cur) + "]")
+            return ("(" + " ++ ".join(segs) + ")" if len(segs) > 1 else segs[0]), ("list", ety)
+        if isinstance(e, ast.Subscript):
+            t, ty = self.ex(e.value)
+            if not self.is_list(ty):
+                raise Untranslatable("subscript of " + str(self.resolve(ty)))
+            sl = e.slice
+            if isinstance(sl, ast.Slice):
+                if sl.step is not None:
+                    raise Untranslatable("slice step")
+                lo = hi = None
+                if sl.lower is not None:
+                    lo, lty = self.ex(sl.lower)
+                    self.unify(lty, "int", "slice bound")
+                if sl.upper is not None:
+                    hi, hty = self.ex(sl.upper)
+                    self.unify(hty, "int", "slice bound")
+                if lo is not None and hi is None:
+                    return f"(py_slice_from {t} {lo})", ty
+                if lo is None and hi is not None:
+                    return f"(py_slice_to {t} {hi})", ty
+                if lo is not None and hi is not None:
+                    return f"(py_slice {t} {lo} {hi})", ty
+                return t, ty
+            if ast.unparse(sl) == "-1" and isinstance(e.value, ast.Name) and e.value.id in self.nonempty \
+                    and self.resolve(ty) == LSTR:
+                return f"(py_last {t})", "str"
+            raise Untranslatable("subscript " + ast.unparse(e)[:60] + " (may raise IndexError here)")
+        if isinstance(e, ast.Call):
+            return self.call(e)
+        raise Untranslatable("expression " + ast.dump(e)[:100])
+
+    def call(self, e: ast.Call) -> tuple[str, object]:
+        f = e.func
+        if isinstance(f, ast.Name):
+            h = self.lookup_helper(f.id)
+            if h is not None:
+                if h.kind != "expr":
+                    raise Untranslatable(f"helper {f.id} used as a value")
+                return self.inline_ex(h, e)
+            if not self.name_is_global(f.id) or f.id in self.mod.bound:
+                raise Untranslatable(f"call of {f.id}")
+            if e.keywords:
+                raise Untranslatable("keyword arguments")
+            if f.id == "len" and len(e.args) == 1:
+                t, ty = self.ex(e.args[0])
+                if self.resolve(ty) != "str" and not self.is_list(ty):
+                    raise Untranslatable("len of " + str(self.resolve(ty)))
+                return f"(Z.of_nat (List.length {t}))", "int"
+            if f.id in ("max", "min") and len(e.args) == 2:
+                (ta, tya), (tb, tyb) = self.ex(e.args[0]), self.ex(e.args[1])
+                self.unify(tya, "int", f.id)
+                self.unify(tyb, "int", f.id)
+                return f"(Z.{f.id} {ta} {tb})", "int"
+            if f.id in ("list", "tuple") and len(e.args) == 1:
+                return self.it(e)
+            if f.id == "str" and len(e.args) == 1:
+                t, ty = self.ex(e.args[0])
+                self.unify(ty, "str", "str()")
+                return t, "str"
+            raise Untranslatable("call " + ast.unparse(e)[:60])
+        if isinstance(f, ast.Attribute) and f.attr == "format" and not e.keywords:
+            tmpl = self.static_str(f.value)
+            if tmpl is None:
+                raise Untranslatable("format on a non-constant template")
+            return self.fmt(tmpl, [self.ex(a) for a in e.args]), "str"
+        if ast.unparse(f) == "pathlib.PurePosixPath" and self.name_is_global("pathlib") and e.args and not e.keywords \
+                and all(isinstance(a, ast.Starred) for a in e.args):
+            segs = []
+            for a in e.args:
+                t, ty = self.it(a.value)
+                self.unify(ty, LSTR, "PurePosixPath(*parts)")
+                segs.append(t)
+            return "(py_of_parts " + (segs[0] if len(segs) == 1 else "(" + " ++ ".join(segs) + ")") + ")", "ppath"
+        raise Untranslatable("call " + ast.unparse(e)[:60])
+
+    # ---------------- helpers (nested defs / lambdas / simple module-level functions), inlined
+    def lookup_helper(self, name: str) -> Helper | None:
+        if name in self.helpers:
+            return self.helpers[name]
+        if self.name_is_global(name) and name in self.mod.funcs:
+            return self.mod.funcs[name]
+        return None
+
+    def inline(self, h: Helper, call: ast.Call, body_fn):
+        if call.keywords or len(call.args) != len(h.params) or any(isinstance(a, ast.Starred) for a in call.args):
+            raise Untranslatable(f"call shape of helper {h.name}")
+        if self.depth > 6:
+            raise Untranslatable("helper nesting too deep (recursion?)")
+        args = [self.ex(a) for a in call.args]
+        saved = self.save()
+        saved_locals = self.locals
+        if h.module_level:
+            # a module-level function sees its parameters and module globals only
+            self.vars = {}
+            self.nonempty = set()
+            self.locals = set(h.params)
+            self.helpers = {}
+        binds = []
+        for p, (t, ty) in zip(h.params, args):
+            self.counter += 1
+            g = f"v_{p}__{self.counter}"
+            self.vars[p] = (g, ty)
+            self.nonempty.discard(p)
+            binds.append((g, t))
+        self.depth += 1
+        try:
+            r = body_fn(h.body)
+        finally:
+            self.depth -= 1
+            self.restore(saved)
+            self.locals = saved_locals
+        return binds, r
+
+    def inline_ex(self, h: Helper, call: ast.Call):
+        binds, (t, ty) = self.inline(h, call, self.ex)
+        for g, a in reversed(binds):
+            t = f"(let {g} := {a} in {t})"
+        return t, ty
+
+    def exc_code(self, e: ast.AST) -> str:
+        """the class of the exception value `e` evaluates to; its arguments must be expressions that cannot raise"""
+        if isinstance(e, ast.Name) and e.id in ERRCODES and self.name_is_global(e.id) and e.id not in self.mod.bound:
+            return ERRCODES[e.id]
+        if isinstance(e, ast.Call) and isinstance(e.func, ast.Name):
+            n = e.func.id
+            if n in ERRCODES and self.name_is_global(n) and n not in self.mod.bound and not e.keywords:
+                for a in e.args:
+                    _, ty = self.ex(a)
+                    if self.resolve(ty) not in ("str", "int", "bool"):
+                        raise Untranslatable("exception argument")
+                return ERRCODES[n]
+            h = self.lookup_helper(n)
+            if h is not None and h.kind == "expr":
+                _, code = self.inline(h, e, self.exc_code)
+                return code
+        raise Untranslatable("exception value " + ast.unparse(e)[:60])
+
+    # ---------------- outcomes
     def tup(self, names: list[str]) -> str:
         if not names:
             return "tt"
-        return "(" + ", ".join("v_" + n for n in names) + ")"
+        if len(names) == 1:
+            return self.vars[names[0]][0]
+        return "(" + ", ".join(self.vars[n][0] for n in names) + ")"
 
-    def pat(self, names: list[str]) -> str:
+    @staticmethod
+    def pat(names: list[str]) -> str:
         if not names:
             return "_"
         if len(names) == 1:
             return "v_" + names[0]
-        return "'" + self.tup(names)
+        return "'(" + ", ".join("v_" + n for n in names) + ")"
 
-    def mpat(self, names: list[str]) -> str:
-        return self.pat(names).lstrip("'")
+    def sty(self, names: list[str], entry: dict) -> str:
+        if not names:
+            return "unit"
+        return " * ".join(self.gty(entry[n][1], len(names) == 1) for n in names)
 
-    def ret_state(self, names: list[str]) -> str:
-        return f"(Ok {self.tup(names)})" if self.monadic else self.tup(names)
+    def state_out(self) -> str:
+        c = self.ctx[-1]
+        for n in c.state:
+            if n not in self.vars:
+                raise Untranslatable(f"{n} may be unbound at the end of an iteration")
+            self.unify(self.vars[n][1], c.entry[n][1], f"loop variable {n}")
+        return self.tup(c.state)
 
-    def block(self, body: list[ast.stmt], names: list[str], k: str | None = None) -> str:
-        """Translate statements; the value is the tuple of `names` after the block
-        (or `k`, a continuation expression, when given)."""
+    def out_next(self) -> str:
+        c = self.ctx[-1]
+        s = self.state_out()
+        return {"fold": s, "forb": f"({s}, false)", "for": f"(Next {s})"}[c.mode]
+
+    def out_break(self) -> str:
+        c = self.ctx[-1]
+        if c is None:
+            raise Untranslatable("break outside a loop")
+        s = self.state_out()
+        return {"forb": f"({s}, true)", "for": f"(Break {s})"}[c.mode]
+
+    def out_err(self, code: str) -> str:
+        if not self.monadic:
+            raise Untranslatable("raise in a function translated as pure")
+        return f"(Raise {code})" if self.ctx[-1] is not None else f"(Err {code})"
+
+    def out_return(self, t: str) -> str:
+        if self.ctx[-1] is not None:
+            raise Untranslatable("return inside a loop")
+        return f"(Ok {t})" if self.monadic else t
+
+    # ---------------- statements
+    def bind(self, name: str, text: str, ty, cont) -> str:
+        g = "v_" + name
+        self.define(name, g, ty)
+        return f"let {g} := {text} in\n{cont()}"
+
+    def pop_target(self, call: ast.AST) -> str | None:
+        if isinstance(call, ast.Expr):
+            call = call.value
+        if isinstance(call, ast.Call) and isinstance(call.func, ast.Attribute) and call.func.attr == "pop" \
+                and isinstance(call.func.value, ast.Name) and not call.args and not call.keywords:
+            x = call.func.value.id
+            if x in self.vars and self.is_list(self.vars[x][1]):
+                return x
+        return None
+
+    def block(self, body: list[ast.stmt], k) -> str:
+        """statements, then k() (evaluated in the environment reached at the end of `body`)"""
         if not body:
-            return k if k is not None else self.ret_state(names)
+            return k()
         s, rest = body[0], body[1:]
-        cont = lambda: self.block(rest, names, k)
+        cont = lambda: self.block(rest, k)      # noqa: E731
+        if isinstance(s, ast.Pass) or (isinstance(s, ast.Expr) and isinstance(s.value, ast.Constant) and isinstance(s.value.value, str)):
+            return cont()
+        if isinstance(s, ast.FunctionDef):
+            h = helper_of_def(s, False)
+            if h is None or s.name in self.rebound_helpers:
+                raise Untranslatable(f"nested function {s.name} is not a one-expression helper")
+            self.helpers[s.name] = h
+            return cont()
+        if isinstance(s, ast.Assign) and len(s.targets) == 1 and isinstance(s.targets[0], ast.Name) and isinstance(s.value, ast.Lambda):
+            a = s.value.args
+            if a.vararg or a.kwarg or a.kwonlyargs or a.defaults or a.posonlyargs or s.targets[0].id in self.rebound_helpers:
+                raise Untranslatable("lambda form")
+            self.helpers[s.targets[0].id] = Helper(s.targets[0].id, [x.arg for x in a.args], "expr", s.value.body, False)
+            return cont()
         if isinstance(s, (ast.Assign, ast.AnnAssign)):
+            if isinstance(s, ast.Assign) and len(s.targets) != 1:
+                raise Untranslatable("chained assignment")
             tg = s.targets[0] if isinstance(s, ast.Assign) else s.target
-            if isinstance(s, ast.AnnAssign):
-                self.types.setdefault(tg.id, ast.unparse(s.annotation))
             if s.value is None:
                 raise Untranslatable("bare annotation")
+            if isinstance(tg, ast.Tuple) and isinstance(s.value, ast.Tuple) and len(tg.elts) == len(s.value.elts) \
+                    and all(isinstance(x, ast.Name) for x in tg.elts) and len({x.id for x in tg.elts}) == len(tg.elts):
+                vals = [self.ex(v) for v in s.value.elts]      # all right-hand sides first
+                for v, (_, ty) in zip(s.value.elts, vals):
+                    self.check_alias(None, v, ty)
+                for x, (_, ty) in zip(tg.elts, vals):
+                    self.define(x.id, "v_" + x.id, ty)
+                    self.nonempty.discard(x.id)
+                return (f"let '({', '.join('v_' + x.id for x in tg.elts)}) := ({', '.join(t for t, _ in vals)}) in\n{cont()}")
+            if not isinstance(tg, ast.Name):
+                raise Untranslatable("assignment target")
+            if tg.id in self.helpers:
+                raise Untranslatable(f"helper {tg.id} rebound")
             if isinstance(s.value, ast.List) and not s.value.elts:
-                val = "[]"
+                ty: object = None
+                if isinstance(s, ast.AnnAssign):
+                    try:
+                        ty = _type_of_ann(s.annotation)
+                    except Untranslatable:
+                        ty = None
+                if ty is None or not self.is_list(ty):
+                    ty = ("list", self.fresh())
+                text = "[]"
             else:
-                val = self.expr(s.value)
-                self.types.setdefault(tg.id, self.ty(s.value))
+                text, ty = self.ex(s.value)
+                self.check_alias(tg.id, s.value, ty)
             self.nonempty.discard(tg.id)
-            return f"let v_{tg.id} := {val} in\n{cont()}"
+            if isinstance(s.value, ast.List) and any(not isinstance(x, ast.Starred) for x in s.value.elts):
+                self.nonempty.add(tg.id)
+            return self.bind(tg.id, text, ty, cont)
+        if isinstance(s, ast.AugAssign):
+            if not (isinstance(s.target, ast.Name) and s.target.id in self.vars and isinstance(s.op, (ast.Add, ast.Sub))):
+                raise Untranslatable("augmented assignment")
+            x = s.target.id
+            g, ty = self.vars[x]
+            ty = self.resolve(ty)
+            if ty == "int":
+                t, vty = self.ex(s.value)
+                self.unify(vty, "int", "+=")
+                return self.bind(x, f"({'Z.add' if isinstance(s.op, ast.Add) else 'Z.sub'} {g} {t})", "int", cont)
+            if isinstance(s.op, ast.Add) and ty == "str":
+                t, vty = self.ex(s.value)
+                self.unify(vty, "str", "+=")
+                return self.bind(x, f"({g} ++ {t})", "str", cont)
+            if isinstance(s.op, ast.Add) and self.is_list(ty):
+                t, vty = self.it(s.value)
+                ty = self.unify(ty, vty, "+=")
+                return self.bind(x, f"({g} ++ {t})", ty, cont)
+            raise Untranslatable("augmented assignment on " + str(ty))
         if isinstance(s, ast.Expr) and isinstance(s.value, ast.Call) and isinstance(s.value.func, ast.Attribute) \
                 and isinstance(s.value.func.value, ast.Name):
-            x, m = s.value.func.value.id, s.value.func.attr
-            if m == "append" and len(s.value.args) == 1:
+            c = s.value
+            x, m = c.func.value.id, c.func.attr
+            if x not in self.vars or not self.is_list(self.vars[x][1]) or c.keywords:
+                raise Untranslatable("method call statement " + ast.unparse(c)[:60])
+            g, ty = self.vars[x]
+            if m == "append" and len(c.args) == 1:
+                t, ety = self.ex(c.args[0])
+                if self.is_list(ety):
+                    raise Untranslatable("list of lists")
+                ty = self.unify(ty, ("list", ety), "append")
+                self.define(x, "v_" + x, ty)
                 self.nonempty.add(x)
-                return f"let v_{x} := v_{x} ++ [{self.expr(s.value.args[0])}] in\n{cont()}"
-            if m == "pop" and not s.value.args:
+                return f"let v_{x} := {g} ++ [{t}] in\n{cont()}"
+            if m == "extend" and len(c.args) == 1:
+                t, vty = self.it(c.args[0])
+                ty = self.unify(ty, vty, "extend")
+                return self.bind(x, f"({g} ++ {t})", ty, cont)
+            if m == "pop" and not c.args:
                 if x not in self.nonempty:
                     raise Untranslatable(f"{x}.pop() may raise IndexError here")
                 self.nonempty.discard(x)
-                return f"let v_{x} := removelast v_{x} in\n{cont()}"
+                return self.bind(x, f"removelast {g}", ty, cont)
             raise Untranslatable("method call " + m)
+        if isinstance(s, ast.Expr) and isinstance(s.value, ast.Call) and isinstance(s.value.func, ast.Name) \
+                and (h := self.lookup_helper(s.value.func.id)) is not None and h.kind == "raise":
+            _, code = self.inline(h, s.value, self.exc_code)
+            return self.out_err(code)
         if isinstance(s, ast.Expr) and isinstance(s.value, ast.Yield):
-            return f"let v__out := v__out ++ [{self.expr(s.value.value)}] in\n{cont()}"
-        if isinstance(s, ast.Expr) and isinstance(s.value, ast.Constant) and isinstance(s.value.value, str):
-            return cont()  # docstring
+            if s.value.value is None:
+                raise Untranslatable("bare yield")
+            t, ety = self.ex(s.value.value)
+            g, ty = self.vars["_out"]
+            ty = self.unify(ty, ("list", ety), "yield")
+            return self.bind("_out", f"{g} ++ [{t}]", ty, cont)
         if isinstance(s, ast.With):
-            it = s.items[0].context_expr
-            if len(s.items) == 1 and ast.unparse(it) == "contextlib.suppress(IndexError)" and len(s.body) == 1:
-                b = s.body[0]
-                if isinstance(b, ast.Expr) and isinstance(b.value, ast.Call) and ast.unparse(b.value.func).endswith(".pop") \
-                        and isinstance(b.value.func.value, ast.Name) and not b.value.args:
-                    x = b.value.func.value.id
-                    return f"let v_{x} := removelast v_{x} in (* pop, IndexError suppressed *)\n{cont()}"
+            if len(s.items) == 1 and s.items[0].optional_vars is None and self.name_is_global("contextlib") \
+                    and ast.unparse(s.items[0].context_expr) == "contextlib.suppress(IndexError)" \
+                    and self.name_is_global("IndexError") and "IndexError" not in self.mod.bound \
+                    and len(s.body) == 1 and (x := self.pop_target(s.body[0])) is not None and isinstance(s.body[0], ast.Expr):
+                g, ty = self.vars[x]
+                self.nonempty.discard(x)
+                return self.bind(x, f"removelast {g} (* pop, IndexError suppressed *)", ty, cont)
             raise Untranslatable("with-statement")
+        if isinstance(s, ast.Try):
+            if len(s.body) == 1 and isinstance(s.body[0], ast.Expr) and (x := self.pop_target(s.body[0])) is not None \
+                    and not s.orelse and not s.finalbody and len(s.handlers) == 1 \
+                    and isinstance(s.handlers[0].type, ast.Name) and s.handlers[0].type.id == "IndexError" \
+                    and self.name_is_global("IndexError") and "IndexError" not in self.mod.bound \
+                    and s.handlers[0].name is None and len(s.handlers[0].body) == 1 and isinstance(s.handlers[0].body[0], ast.Pass):
+                g, ty = self.vars[x]
+                self.nonempty.discard(x)
+                return self.bind(x, f"removelast {g} (* pop, IndexError suppressed *)", ty, cont)
+            raise Untranslatable("try-statement")
         if isinstance(s, ast.Raise):
-            if not (isinstance(s.exc, ast.Call) and isinstance(s.exc.func, ast.Name) and s.exc.func.id in ERRCODES):
+            if s.exc is None or not (s.cause is None or isinstance(s.cause, (ast.Name, ast.Constant))):
                 raise Untranslatable("raise form")
-            return f"(Err {ERRCODES[s.exc.func.id]})"
+            return self.out_err(self.exc_code(s.exc))
+        if isinstance(s, ast.Return):
+            if self.yields:
+                if s.value is not None:
+                    raise Untranslatable("return with a value in a generator")
+                return self.out_return(self.vars["_out"][0])
+            if s.value is None:
+                raise Untranslatable("return without a value")
+            return self.out_return(self.ex(s.value)[0])
+        if isinstance(s, ast.Continue):
+            if self.ctx[-1] is None:
+                raise Untranslatable("continue outside a loop")
+            return self.out_next()
+        if isinstance(s, ast.Break):
+            return self.out_break()
         if isinstance(s, ast.If):
-            mod = [n for n in names if n in self.assigned(s.body + s.orelse)]
-            saved = set(self.nonempty)
             test = self.truth(s.test)
-            ne = set(saved)
-            if isinstance(s.test, ast.Name) and self.types.get(s.test.id, "").startswith("list"):
-                ne.add(s.test.id)
-            if isinstance(s.test, ast.BoolOp) and isinstance(s.test.op, ast.And):
-                for v in s.test.values:
-                    if isinstance(v, ast.Name) and self.types.get(v.id, "").startswith("list"):
-                        ne.add(v.id)
-            self.nonempty = set(ne)
-            a = self.block(s.body, mod)
-            self.nonempty = set(saved)
-            b = self.block(s.orelse, mod)
-            self.nonempty = {n for n in saved if n not in mod}
-            if self.monadic:
-                return (f"match (if {test} then\n{textwrap.indent(a, '  ')}\nelse\n{textwrap.indent(b, '  ')}) with\n"
-                        f"| Err e => Err e\n| Ok {self.mpat(mod)} =>\n{cont()}\nend")
-            return (f"let {self.pat(mod)} := (if {test} then\n{textwrap.indent(a, '  ')}\nelse\n{textwrap.indent(b, '  ')}) in\n{cont()}")
+            snap = self.save()
+            self.assume(s.test, True)
+            a = self.block(s.body, cont)
+            self.restore(snap)
+            self.assume(s.test, False)
+            b = self.block(s.orelse, cont)
+            return f"(if {test} then\n{textwrap.indent(a, '  ')}\nelse\n{textwrap.indent(b, '  ')})"
         if isinstance(s, ast.For):
-            if s.orelse or not isinstance(s.target, ast.Name):
-                raise Untranslatable("for form")
-            for n in ast.walk(s):
-                if isinstance(n, (ast.Break, ast.Continue, ast.Return)):
-                    raise Untranslatable("break/continue/return in loop")
-            mod = [n for n in names if n in self.assigned(s.body)]
-            it = self.expr(s.iter)
-            ity = self.ty(s.iter)
-            if not ity.startswith("list["):
-                raise Untranslatable("loop over " + ity)
-            self.types[s.target.id] = ity[5:-1]
-            saved = set(self.nonempty)
-            self.nonempty = set()
-            mod = [n for n in mod if n != s.target.id]   # the loop variable is local to one iteration
-            body = self.block(s.body, mod + [s.target.id], k=self.ret_state(mod))
-            self.nonempty = {n for n in saved if n not in mod}
-            v = "v_" + s.target.id
-            vt = GTYPES[self.types[s.target.id]]
-            st_ty = " * ".join(GTYPES[self.types[n]] for n in mod) if mod else "unit"
-            if self.monadic:
-                return (f"match fold_left (fun (st : result ({st_ty})) ({v} : {vt}) => match st with Err e => Err e | Ok {self.mpat(mod)} =>\n"
-                        f"{textwrap.indent(body, '  ')}\n  end) {it} (Ok {self.tup(mod)}) with\n"
-                        f"| Err e => Err e\n| Ok {self.mpat(mod)} =>\n{cont()}\nend")
-            return (f"let {self.pat(mod)} := fold_left (fun (st : {st_ty}) ({v} : {vt}) => let {self.pat(mod)} := st in\n"
-                    f"{textwrap.indent(body, '  ')}) {it} {self.tup(mod)} in\n{cont()}")
-        if isinstance(s, ast.Return) and not rest and k is None:
-            r = self.expr(s.value)
-            return f"(Ok {r})" if self.monadic else r
+            return self.loop(s, cont)
         raise Untranslatable("statement " + type(s).__name__)
 
-    def function(self, name: str) -> str:
-        args = [a.arg for a in self.fn.args.args + self.fn.args.kwonlyargs]
-        for a in args:
-            if a not in self.types:
-                raise Untranslatable(f"no type for parameter {a}")
-        body = list(self.fn.body)
-        all_names = self.assigned(body)
-        for n in all_names:
-            if n != "_out" and n not in self.types:
-                # may be set by annotation/inference during translation
-                pass
-        if self.yields:
-            self.types["_out"] = "list[str]"
-            text = "let v__out := [] in\n" + self.block(body, all_names, k="(Ok v__out)")
+    def check_alias(self, target: str | None, value: ast.AST, ty) -> None:
+        """a second name for an existing list object is only sound when neither name is mutated"""
+        if not self.is_list(ty):
+            return
+        names = []
+        stack = [value]
+        while stack:
+            v = stack.pop()
+            if isinstance(v, ast.Name):
+                names.append(v.id)
+            elif isinstance(v, ast.IfExp):
+                stack += [v.body, v.orelse]
+            elif isinstance(v, ast.BoolOp):
+                stack += v.values
+        if names and (any(n in self.fn_mutated for n in names) or target in self.fn_mutated or target is None):
+            raise Untranslatable("alias of a list that is mutated")
+
+    def bind_target(self, t: ast.AST, ty) -> str:
+        ty = self.resolve(ty)
+        if isinstance(t, ast.Name):
+            self.define(t.id, "v_" + t.id, ty)
+            self.nonempty.discard(t.id)
+            return "v_" + t.id
+        if isinstance(t, (ast.Tuple, ast.List)):
+            if not (isinstance(ty, tuple) and ty[0] == "tuple" and len(ty) - 1 == len(t.elts)):
+                raise Untranslatable("unpacking " + str(ty))
+            return "(" + ", ".join(self.bind_target(x, y) for x, y in zip(t.elts, ty[1:])) + ")"
+        raise Untranslatable("loop target")
+
+    def loop(self, s: ast.For, cont) -> str:
+        if s.orelse:
+            raise Untranslatable("for-else")
+        it_text, it_ty = self.it(s.iter)
+        elt = self.resolve(it_ty)[1]
+        tnames = target_names(s.target)
+        if len(set(tnames)) != len(tnames):
+            raise Untranslatable("repeated loop target")
+        assigned = self.assigned(s.body)
+        mut = self.mutated(s.body)
+        for n in ast.walk(s.iter):
+            if isinstance(n, ast.Name) and n.id in mut:
+                raise Untranslatable(f"{n.id} is mutated while it is iterated over")
+        state = [n for n in assigned if n in self.vars and n not in tnames]
+        state.sort(key=lambda n: (self.gty(self.vars[n][1]), self.order[n]))
+        entry = {n: self.vars[n] for n in state}
+        for n in state:
+            if entry[n][0] != "v_" + n:
+                raise Untranslatable(f"helper parameter {n} assigned in a loop")
+        local = [n for n in assigned if n not in state] + tnames
+
+        def own(stmts, kind):      # break/continue of *this* loop (not of nested loops)
+            for st in stmts:
+                if isinstance(st, kind):
+                    return True
+                for f in ("body", "orelse", "handlers", "finalbody"):
+                    if not isinstance(st, (ast.For, ast.While, ast.FunctionDef)) and own(getattr(st, f, []) or [], kind):
+                        return True
+            return False
+        mode = "for" if self.monadic else ("forb" if own(s.body, ast.Break) else "fold")
+        snap = self.save()
+        self.ctx.append(LoopCtx(state, entry, mode))
+        self.nonempty -= set(state)
+        self.counter += 1
+        k = self.counter
+        tp = self.bind_target(s.target, elt)
+        body = self.block(s.body, self.out_next)
+        self.ctx.pop()
+        self.restore(snap)
+        for n in local:
+            self.vars.pop(n, None)        # their value after the loop depends on whether it ran: not modelled
+        self.nonempty -= set(state) | set(local)
+        init = self.tup(state)
+        pat = self.pat(state)
+        sty = self.sty(state, entry)
+        if isinstance(s.target, ast.Name):
+            xb, tb = f"({tp} : {self.gty(elt)})", ""
         else:
-            text = self.block(body, all_names)
-        params = " ".join(f"(v_{a} : {GTYPES[self.types[a]]})" for a in args)
+            xb, tb = f"(x__{k} : {self.gty(elt)})", f" let '{tp} := x__{k} in"
+        fun = f"(fun (st : {sty}) {xb} => let {pat} := st in{tb}\n{textwrap.indent(body, '  ')})"
+        if mode == "for":
+            mp = pat.lstrip("'")
+            err = f"(Raise e__{k})" if self.ctx[-1] is not None else f"(Err e__{k})"
+            return (f"match py_for {fun} {it_text} {init} with\n| Err e__{k} => {err}\n| Ok {mp} =>\n{cont()}\nend")
+        comb = "fold_left" if mode == "fold" else "py_forb"
+        return f"let {pat} := {comb} {fun} {it_text} {init} in\n{cont()}"
+
+    def function(self, name: str) -> str:
+        fn = self.fn
+        a = fn.args
+        if fn.decorator_list or a.vararg or a.kwarg:
+            raise Untranslatable("decorated function / *args / **kwargs")
+        args = [x.arg for x in a.posonlyargs + a.args + a.kwonlyargs]
+        body = list(fn.body)
+        assigned = self.assigned(body)
+        self.locals = set(args) | set(assigned)
+        self.fn_mutated = self.mutated(body)
+        # helper names must be bound exactly once in the function
+        counts: dict[str, int] = {}
+        for st in body:
+            for n in walk_scope(st):
+                tgs = []
+                if isinstance(n, ast.FunctionDef):
+                    tgs = [n.name]
+                elif isinstance(n, ast.Assign):
+                    tgs = [x for tg in n.targets for x in target_names(tg)]
+                elif isinstance(n, (ast.AnnAssign, ast.AugAssign, ast.For)):
+                    tgs = target_names(n.target)
+                for x in tgs:
+                    counts[x] = counts.get(x, 0) + 1
+        self.rebound_helpers = {x for x, c in counts.items() if c > 1} | set(args)
+        for g in BUILTINS_USED:
+            if g in self.mod.bound and any(isinstance(n, ast.Name) and n.id == g for n in ast.walk(fn)):
+                raise Untranslatable(f"builtin {g} is rebound in the module")
+        for m in MODULES_USED:
+            if any(isinstance(n, ast.Name) and n.id == m for n in ast.walk(fn)) and \
+                    (m not in self.mod.imports or self.mod.bound.get(m, 0) != 1 or m in self.mod.globals_written):
+                raise Untranslatable(f"{m} is not the plainly imported module")
+        for x in args:
+            if x not in self.param_types:
+                raise Untranslatable(f"no type for parameter {x}")
+            if self.is_list(self.param_types[x]) and x in self.fn_mutated:
+                raise Untranslatable(f"the caller's list {x} is mutated")
+            self.define(x, "v_" + x, self.param_types[x])
+        self.ctx = [None]
+        if self.yields:
+            if any(isinstance(n, ast.YieldFrom) for n in ast.walk(fn)):
+                raise Untranslatable("yield from")
+            self.define("_out", "v__out", ("list", self.fresh()))
+            text = "let v__out := [] in\n" + self.block(body, lambda: self.out_return(self.vars["_out"][0]))
+        else:
+            def fell_off():
+                raise Untranslatable("the function may end without a return statement")
+            text = self.block(body, fell_off)
+        if len(text) > MAX_TEXT:
+            raise Untranslatable("translation too large")
+        params = " ".join(f"(v_{x} : {self.gty(self.param_types[x])})" for x in args)
         return f"Definition {name} {params} :=\n{textwrap.indent(text, '  ')}."
-
-
-GTYPES = {"str": "str", "list[str]": "list str", "bool": "bool", "ppath": "ppath", "int": "Z"}
 
 
 def find_function(tree: ast.Module, qual: str) -> ast.FunctionDef:
@@ -337,6 +1096,23 @@ def find_function(tree: ast.Module, qual: str) -> ast.FunctionDef:
 
 
 def translate(source: str, qual: str, gname: str, types: dict[str, str]) -> str:
-    fn = find_function(ast.parse(source), qual)
+    tree = ast.parse(source)
+    fn = find_function(tree, qual)
+    module = Module(tree)
+    if "." not in qual and module.bound.get(qual, 0) != 1:
+        raise Untranslatable(f"{qual} is bound more than once in the module")
     digest = hashlib.sha1(ast.dump(fn).encode()).hexdigest()[:12]
-    return f"(* translated from {qual} (ast sha1 {digest}) *)\n" + Tr(fn, types).function(gname)
+    tr = Tr(fn, types, module)
+    text = None
+    for _ in range(4):      # element types of `x = []` are learnt from later statements: repeat until none is missing
+        before = dict(tr.subst)
+        tr.reset()
+        t = tr.function(gname)
+        if not tr.saw_unresolved:
+            text = t
+            break
+        if tr.subst == before:
+            raise Untranslatable("a list's element type could not be inferred")
+    if text is None:
+        raise Untranslatable("type inference did not settle")
+    return f"(* translated from {qual} (ast sha1 {digest}) *)\n" + text
